@@ -32,7 +32,7 @@ Definition nr_of_old (cutoff dr : b64) : Z := Btrunc (Bplus mode_NE (Bdiv mode_N
 Definition cutoff_of (nr : Z) (dr : b64) : b64 := Bmult mode_NE (b64_of_Z (nr - 1)) dr.
 
 Definition check_positive (nr : option Z) (dr cutoff : option b64) : bool :=   (* true = a value is not strictly positive and finite -> ConfigParserException *)
-  match nr with Some n => (n <=? 0)%Z | None => false end
+  match nr with Some n => (n <=? 1)%Z | None => false end
   || match dr with Some d => le0 d | None => false end
   || match cutoff with Some c => le0 c | None => false end.
 
